@@ -74,14 +74,17 @@ class _Env:
         import unittest
         import fixtures
         import testtools
-        from testtools import testcase
         from testtools.matchers import MismatchError
+        from ..tabs.handlers import signal_classes
+        # the two private signal classes of testtools.testcase, obtained through the public expectFailure
+        # (their names are the implementation's business)
+        xfail_cls, ux_cls = signal_classes()
         self.log = []
         self.trace = []
         self.cells = {}
         self.classes = {"BaseException": BaseException, "Exception": Exception, "Skip": unittest.SkipTest,
-                        "Fail": AssertionError, "Mismatch": MismatchError, "XFail": testcase._ExpectedFailure,
-                        "Ux": testcase._UnexpectedSuccess, "Multi": testtools.MultipleExceptions,
+                        "Fail": AssertionError, "Mismatch": MismatchError, "XFail": xfail_cls,
+                        "Ux": ux_cls, "Multi": testtools.MultipleExceptions,
                         "SetupError": fixtures.SetupError, "ValueError": ValueError, "Kbd": KeyboardInterrupt,
                         "SysExit": SystemExit, "GenExit": GeneratorExit}
         self.names = {v: k for k, v in self.classes.items()}
